@@ -111,7 +111,7 @@ def run_case(case):
         from .C07 import function_before_declaration_scripts
         # (every second script of that family declares the device BEFORE the helper that uses it: devices used only from helpers)
         pool = corpus.context_scripts(rng_for(PROP, sd, "ctx"), 16) + corpus.collision_scripts(rng_for(PROP, sd, "col"), 36, conflicting_returns=False, shadow_helpers=False) + \
-            function_before_declaration_scripts()[1::2] + corpus.helper_only_scripts() + corpus.main_loop_break_scripts() + corpus.twice_scripts()
+            [fs for fs in function_before_declaration_scripts()[1::2] if ".animate(" not in fs] + corpus.helper_only_scripts() + corpus.main_loop_break_scripts() + corpus.twice_scripts()
         script = pool[idx % len(pool)]
     elif kind == "boundary":
         script = corpus.boundary_scripts()[idx % len(corpus.boundary_scripts())]
@@ -169,9 +169,9 @@ def main() -> int:
     t = tier()
     sd = seed()
     if t == "quick":
-        cases = [("prog", i, sd, i % 8 == 0) for i in range(300)] + [("device", i, sd, i % 3 == 0) for i in range(180)] + [("strings", i, sd, i % 2 == 0) for i in range(120)] + [("poly", i, sd, i % 4 == 0) for i in range(120)] + [("ctx", i, sd, i % 4 == 0) for i in range(190)] + [("lists", i, sd, i % 4 == 0) for i in range(60)] + [("boundary", i, sd, i % 4 == 0) for i in range(len(corpus.boundary_scripts()))]
+        cases = [("prog", i, sd, i % 8 == 0) for i in range(300)] + [("device", i, sd, i % 3 == 0) for i in range(180)] + [("strings", i, sd, i % 2 == 0) for i in range(120)] + [("poly", i, sd, i % 4 == 0) for i in range(120)] + [("ctx", i, sd, i % 4 == 0) for i in range(260)] + [("lists", i, sd, i % 4 == 0) for i in range(60)] + [("boundary", i, sd, i % 4 == 0) for i in range(len(corpus.boundary_scripts()))]
     else:
-        cases = [("prog", i, sd, i % 4 == 0) for i in range(3000)] + [("device", i, sd, i % 2 == 0) for i in range(2000)] + [("strings", i, sd, True) for i in range(1000)] + [("poly", i, sd, i % 2 == 0) for i in range(1000)] + [("ctx", i, sd, True) for i in range(190)] + [("lists", i, sd, i % 2 == 0) for i in range(600)] + [("boundary", i, sd, True) for i in range(len(corpus.boundary_scripts()))]
+        cases = [("prog", i, sd, i % 4 == 0) for i in range(3000)] + [("device", i, sd, i % 2 == 0) for i in range(2000)] + [("strings", i, sd, True) for i in range(1000)] + [("poly", i, sd, i % 2 == 0) for i in range(1000)] + [("ctx", i, sd, True) for i in range(260)] + [("lists", i, sd, i % 2 == 0) for i in range(600)] + [("boundary", i, sd, True) for i in range(len(corpus.boundary_scripts()))]
     for case, st, res in run_cases(run_case, cases):
         if st != "ok":
             rep.inconclusive_because(f"case {case[:2]} failed: {res[-300:]}")
